@@ -562,28 +562,27 @@ Lemma src_slice_zero : forall buf, src_slice buf 0 0 = Ok [].
 Proof. intros. unfold src_slice, slice. cbn. reflexivity. Qed.
 
 (* when the event is at least as long as the buffer: the empty stream or a panic, nothing else *)
-Lemma overflow_lemma : forall schema cfg rec B ser,
+Lemma overflow_lemma : forall schema cfg rec B ser buffer,
   verify_config schema cfg = true ->
   (length schema <= length (r_fields rec))%nat ->
   new_serializer schema cfg B = Ok ser ->
+  length buffer = B ->
   (B <= length (encode_spec schema cfg rec))%nat ->
-  match serialize_record ser rec with
+  match serialize_record_from ser rec buffer with
   | Ok stream => stream = []
   | Panic _ => True
   | Err _ => False
   end.
 Proof.
-  intros schema cfg rec B ser V L Hnew Hbig.
+  intros schema cfg rec B ser buffer V L Hnew LB Hbig.
   destruct (new_serializer_inv _ _ _ _ Hnew) as (Hm & Hk & Hek & Hloc & Hrw & Hb).
   pose proof (fun n ch => verified_chain schema cfg n ch V) as Hver.
   pose proof (locate_all_length _ _ _ Hloc) as Hnloc.
-  unfold serialize_record, encode_record_on. rewrite Hm, Hk, Hek, Hb, Hnloc. rewrite map_length.
+  unfold serialize_record_from, encode_record_on. rewrite Hm, Hk, Hek, Hnloc. rewrite map_length.
   replace (length schema <=? length (r_fields rec))%nat with true by lia. cbn [obind].
   set (fields := firstn (length schema) (r_fields rec)) in *.
   assert (Hfl : length fields = length schema) by (subst fields; rewrite firstn_length; lia).
   rewrite Hfl.
-  set (buffer := repeat 0 B) in *.
-  assert (LB : length buffer = B) by (subst buffer; apply repeat_length).
   (* the size of the event, by pieces *)
   set (F := flat_map (field_bytes schema cfg rec) (combine schema fields)) in *.
   set (E := flat_map (env_bytes schema fields) (c_env cfg)) in *.
@@ -661,19 +660,40 @@ Qed.
 
 (* SerializeRecord is total (Ok or panic, the unescape loop never runs out of fuel); a panic happens only when the
    event does not fit; and a stream that is emitted is empty or the complete event - never a truncated one *)
-Theorem never_garbage_lemma : forall schema cfg rec B ser,
+Theorem never_garbage_lemma : forall schema cfg rec B ser buffer,
   verify_config schema cfg = true ->
   (length schema <= length (r_fields rec))%nat ->
   new_serializer schema cfg B = Ok ser ->
-  match serialize_record ser rec with
+  length buffer = B ->
+  match serialize_record_from ser rec buffer with
   | Ok stream => stream = [] \/ stream = encode_spec schema cfg rec
   | Panic _ => (B <= length (encode_spec schema cfg rec))%nat
   | Err _ => False
   end.
 Proof.
-  intros schema cfg rec B ser V L Hnew.
+  intros schema cfg rec B ser buffer V L Hnew LB.
   destruct (Nat.lt_ge_cases (length (encode_spec schema cfg rec)) B) as [Hfit|Hbig].
-  - rewrite (encode_buf_spec_lemma schema cfg rec B ser V L Hnew Hfit). right. reflexivity.
-  - pose proof (overflow_lemma schema cfg rec B ser V L Hnew Hbig) as O.
-    destruct (serialize_record ser rec) as [stream| |]; [left; exact O | exact O | exact Hbig].
+  - rewrite (encode_buf_spec_from_lemma schema cfg rec B ser buffer V L Hnew LB Hfit). right. reflexivity.
+  - pose proof (overflow_lemma schema cfg rec B ser buffer V L Hnew LB Hbig) as O.
+    destruct (serialize_record_from ser rec buffer) as [stream| |]; [left; exact O | exact O | exact Hbig].
+Qed.
+
+(* The buffer is reused from record to record: what is emitted does not depend on what the previous records left
+   in it - two buffers of the same length emit the same non-empty streams.  (The correspondence run evaluates the
+   model on a zeroed buffer.) *)
+Theorem buffer_contents_irrelevant_lemma : forall schema cfg rec B ser buffer1 buffer2 stream,
+  verify_config schema cfg = true ->
+  (length schema <= length (r_fields rec))%nat ->
+  new_serializer schema cfg B = Ok ser ->
+  length buffer1 = B -> length buffer2 = B ->
+  stream <> [] ->
+  serialize_record_from ser rec buffer1 = Ok stream ->
+  serialize_record_from ser rec buffer2 = Ok stream.
+Proof.
+  intros schema cfg rec B ser buffer1 buffer2 stream V L Hnew L1 L2 Hne H1.
+  destruct (Nat.lt_ge_cases (length (encode_spec schema cfg rec)) B) as [Hfit|Hbig].
+  - rewrite (encode_buf_spec_from_lemma schema cfg rec B ser buffer1 V L Hnew L1 Hfit) in H1.
+    rewrite (encode_buf_spec_from_lemma schema cfg rec B ser buffer2 V L Hnew L2 Hfit). exact H1.
+  - pose proof (overflow_lemma schema cfg rec B ser buffer1 V L Hnew L1 Hbig) as O1.
+    rewrite H1 in O1. contradiction.
 Qed.
